@@ -115,6 +115,16 @@ def lexer_tables(repo: Path):
             arms = body.count("=>")
             if rows and arms == len(rows) + 1 and re.search(r"_\s*=>\s*None", body):
                 found.append((name, rows))
+        # … or a constant table of (characters, token) pairs that is searched by a lookup function
+        if arity == 1:
+            cpat, ty = r"\(\s*'((?:\\.|[^'\\]))'\s*,\s*Token::(\w+)\s*\)", r"\(\s*char\s*,\s*Token\s*\)"
+        else:
+            cpat = r"\(\s*\(" + r",\s*".join([r"'((?:\\.|[^'\\]))'"] * arity) + r"\)\s*,\s*Token::(\w+)\s*\)"
+            ty = r"\(\s*\(" + r",\s*".join(["char"] * arity) + r"\)\s*,\s*Token\s*\)"
+        for cm in re.finditer(r"\b(?:const|static)\s+(\w+)\s*:\s*&(?:'static\s+)?\[\s*" + ty + r"\s*(?:;\s*\d+\s*)?\]\s*=\s*&?\[(.*?)\]\s*;", src, re.S):
+            rows = [("".join(rust_char(g, label) for g in mm.groups()[:-1]), mm.group(arity + 1)) for mm in re.finditer(cpat, cm.group(2))]
+            if rows and len(rows) == cm.group(2).count("Token::"):
+                found.append((cm.group(1), rows))
         if len(found) != 1:
             raise ExtractError(label, f"expected exactly one {arity}-character symbol table (a function that is one match "
                                       f"to `Some(Token::…)` with `_ => None`), found {[n for n, _ in found]}")
@@ -127,6 +137,10 @@ def lexer_tables(repo: Path):
     kw_tables = []
     for mm in re.finditer(r"match \w+ \{((?:\s*\"\w+\"\s*=>\s*Token::\w+\s*,)+)\s*_\s*=>\s*Token::Ident\((\w+)\.to_string\(\)\)\s*,?\s*\}", src):
         kw_tables.append(re.findall(r'"(\w+)"\s*=>\s*Token::(\w+)\s*,', mm.group(1)))
+    for cm in re.finditer(r"\b(?:const|static)\s+\w+\s*:\s*&(?:'static\s+)?\[\s*\(\s*&(?:'static\s+)?str\s*,\s*Token\s*\)\s*(?:;\s*\d+\s*)?\]\s*=\s*&?\[(.*?)\]\s*;", src, re.S):
+        rows = re.findall(r'\(\s*"(\w+)"\s*,\s*Token::(\w+)\s*\)', cm.group(1))
+        if rows and len(rows) == cm.group(1).count("Token::") and "Token::Ident(" in src:
+            kw_tables.append(rows)
     if len(kw_tables) != 1:
         raise ExtractError("keywords", f"expected exactly one keyword match (string literals to Token::… with an identifier "
                                        f"default), found {len(kw_tables)}")
@@ -134,14 +148,21 @@ def lexer_tables(repo: Path):
 
     # continuation set: the longest or-pattern `Token::A | Token::B | …`
     ors = re.findall(r"(?:Token::\w+(?:\([^)]*\))?\s*\|\s*){9,}Token::\w+(?:\([^)]*\))?", src)
-    if len(ors) != 1:
-        raise ExtractError("continuation", f"expected exactly one long or-pattern of tokens (the terminator-suppression set), found {len(ors)}")
-    cont = re.findall(r"Token::(\w+)", ors[0])
-    tail = src[src.index(ors[0]) + len(ors[0]):][:400]
-    # what the pattern guards: either the original `=> {}` arm with `_ => return Some(Ok(span))`, or a boolean helper
-    if not (re.match(r"\s*=>\s*\{\s*\}\s*,\s*_\s*=>\s*\{\s*return Some\(Ok\(span\)\);", tail)
-            or re.match(r"\s*=>\s*true\s*,\s*_\s*=>\s*false", tail) or re.match(r"\s*\)", tail)):
-        raise ExtractError("continuation", f"the long or-pattern of tokens is not used as the suppression test: {tail[:80]!r}")
+    # … or a constant list of tokens that is asked with `.contains(…)`
+    clists = [(cm.group(1), cm.group(2)) for cm in
+              re.finditer(r"\b(?:const|static)\s+(\w+)\s*:\s*&(?:'static\s+)?\[\s*Token\s*(?:;\s*\d+\s*)?\]\s*=\s*&?\[((?:\s*Token::\w+\s*,?)+)\s*\]\s*;", src)]
+    if len(ors) == 1 and not clists:
+        cont = re.findall(r"Token::(\w+)", ors[0])
+        tail = src[src.index(ors[0]) + len(ors[0]):][:400]
+        # what the pattern guards: either the original `=> {}` arm with `_ => return Some(Ok(span))`, or a boolean helper
+        if not (re.match(r"\s*=>\s*\{\s*\}\s*,\s*_\s*=>\s*\{\s*return Some\(Ok\(span\)\);", tail)
+                or re.match(r"\s*=>\s*true\s*,\s*_\s*=>\s*false", tail) or re.match(r"\s*\)", tail)):
+            raise ExtractError("continuation", f"the long or-pattern of tokens is not used as the suppression test: {tail[:80]!r}")
+    elif not ors and len(clists) == 1 and re.search(r"!\s*" + clists[0][0] + r"\.contains\(", src):
+        cont = re.findall(r"Token::(\w+)", clists[0][1])
+    else:
+        raise ExtractError("continuation", f"expected exactly one long or-pattern of tokens or one constant token list asked with "
+                                           f"`!….contains(…)` (the terminator-suppression set), found {len(ors)} / {len(clists)}")
     for name in [t for _, t in single + double + triple + kws] + cont:
         if name not in tokens:
             raise ExtractError("tokens", f"Token::{name} used in a table but not declared")
